@@ -147,3 +147,5 @@ func WatchOn()                   {}
 func WatchOff()                  {}
 func Holds(mu any) int           { return 2 }
 func Dump(x any)                 { fmt.Printf("vf.Dump: %v\n", x) }
+
+func SymbolicTime() {}
